@@ -411,6 +411,7 @@ func main() {
 	exit := 0
 	var reported []map[string]any
 	knownSeen := map[string]int{}
+	minimised := 0
 	for _, sig := range sigs {
 		rs := bySig[sig]
 		if what, ok := known.match(prop, sig); ok {
@@ -425,7 +426,8 @@ func main() {
 				r = c
 			}
 		}
-		path, ok, note := minimiseAndVerify(prop, tier, sig, r)
+		minimised++
+		path, ok, note := minimiseAndVerify(prop, tier, sig, r, minimised <= 3)
 		if !ok {
 			fmt.Fprintf(os.Stderr, "check: replay divergence for signature %s (seed %d index %d): %s\n", sig, r.Seed, r.Index, note)
 			if exit == 0 {
@@ -501,7 +503,7 @@ func runScenario(a *agg, name, tier string, seed uint64, budget time.Duration) {
 				next++
 				nmu.Unlock()
 				spec := Spec{Scenario: name, Tier: tier, Base: seed, Start: idx, Count: 1}
-				res, exit, stderr := runWorker(spec, 10*time.Minute)
+				res, exit, stderr := runWorker(spec, 2*time.Minute)
 				if len(res) != 1 {
 					a.mu.Lock()
 					a.infra = append(a.infra, fmt.Sprintf("worker for %s run %d exited %d without a result: %s", name, idx, exit, tail(stderr, 2000)))
@@ -511,7 +513,7 @@ func runScenario(a *agg, name, tier string, seed uint64, budget time.Duration) {
 				r := res[0]
 				if idx%40 == 0 && r.Infra == "" {
 					// determinism self-check: the same seed in another process must give the same trace
-					res2, _, _ := runWorker(spec, 10*time.Minute)
+					res2, _, _ := runWorker(spec, 2*time.Minute)
 					a.mu.Lock()
 					a.rechecked++
 					a.mu.Unlock()
@@ -549,7 +551,7 @@ func tryReplay(rp *Replay) (*Result, error) {
 	f.Write(b)
 	f.Close()
 	defer os.Remove(f.Name())
-	res, exit, stderr := runWorker(Spec{Replay: f.Name(), Scenario: rp.Scenario}, 10*time.Minute)
+	res, exit, stderr := runWorker(Spec{Replay: f.Name(), Scenario: rp.Scenario}, 90*time.Second)
 	if len(res) != 1 {
 		return nil, fmt.Errorf("replay produced %d results (exit %d): %s", len(res), exit, tail(stderr, 1500))
 	}
